@@ -17,7 +17,7 @@ theorem SW_strnlenLoop {lo hi : Nat} (N smax str count : Nat) (bos : Bos) (h : c
   | succ n ih => unfold strnlenLoop; sw_walk using ih
 
 theorem SW_strnlen_s {lo hi : Nat} (str smax : Nat) (bos : Bos) :
-    SW lo hi (strnlen_s str smax bos) (fun r => r ≤ smax) := by
+    SW lo hi (strnlen_s str smax bos) (fun r => r ≤ smax ∧ (smax ≤ RSIZE_MAX_STR ∨ r = 0)) := by
   unfold strnlen_s; sw_walk using SW_strnlenLoop smax
 
 theorem SW_wcsnlenLoop {lo hi : Nat} (N smax str count : Nat) (h : count + smax ≤ N) :
@@ -30,8 +30,10 @@ theorem SW_wcsnlen_s {lo hi : Nat} (str smax : Nat) :
     SW lo hi (wcsnlen_s str smax) (fun r => r ≤ smax) := by
   unfold wcsnlen_s; sw_walk using SW_wcsnlenLoop smax
 
-/-- `handle_str_bos_overflow(msg, dest, n)` clears at most `max n 1` cells -/
-theorem SW_handleStrBosOverflow {lo hi : Nat} (cfg : Cfg) (dest n : Nat) (h : lo ≤ dest ∧ dest + n ≤ hi ∧ dest < hi) :
+/-- `handle_str_bos_overflow(msg, dest, n)` clears at most `max n 1` cells (none but `dest[0]` when `n` is above the
+limit of `strnlen_s`) -/
+theorem SW_handleStrBosOverflow {lo hi : Nat} (cfg : Cfg) (dest n : Nat)
+    (h : lo ≤ dest ∧ (dest + n ≤ hi ∨ RSIZE_MAX_STR < n) ∧ dest < hi) :
     SW lo hi (handleStrBosOverflow cfg dest n) (fun _ => True) := by
   unfold handleStrBosOverflow; sw_walk using SW_strnlen_s dest n none
 
@@ -105,5 +107,76 @@ theorem SW_stpBody {lo hi : Nat} (cfg : Cfg) (isN : Bool) (dest dmax src slen : 
     (h : lo ≤ dest ∧ dest + dmax ≤ hi ∧ 0 < dmax) :
     SW lo hi (stpBody cfg isN dest dmax src slen srcbos) (fun _ => True) := by
   unfold stpBody; sw_walk using SW_stpLoop, SW_stpSameWalk
+
+
+/-! ## entry points -/
+
+/-- a known dest object size and a known source object size together: the `slen > srcbos` exit clears
+`strnlen_s(dest, destbos)` cells, so the store extent is `destbos`, not `dmax` (`slen-exceeds-srcbos-clears-destbos`) -/
+def bosTight (dmax : Nat) : Bos → Bos → Prop
+  | some db, some _ => db ≤ dmax
+  | _, _ => True
+
+theorem RSIZE_MAX_STR_lt : RSIZE_MAX_STR < 2 ^ 64 - 1 := by decide
+
+theorem SW_strcpyG {lo hi : Nat} (max : Nat) (cfg : Cfg) (dest dmax src : Nat) (db : Bos)
+    (h : dest = 0 ∨ (lo ≤ dest ∧ dest + dmax ≤ hi)) :
+    SW lo hi (strcpyG max cfg dest dmax src db) (fun _ => True) := by
+  unfold strcpyG; sw_walk using SW_chkDmaxClear, SW_copyLoop
+
+theorem SW_strcatG {lo hi : Nat} (max : Nat) (cfg : Cfg) (dest dmax src : Nat) (db : Bos)
+    (h : dest = 0 ∨ (lo ≤ dest ∧ dest + dmax ≤ hi)) :
+    SW lo hi (strcatG max cfg dest dmax src db) (fun _ => True) := by
+  unfold strcatG; sw_walk using SW_chkDmaxClear, SW_copyLoop, SW_findEnd
+
+theorem SW_strncpyG {lo hi : Nat} (max : Nat) (cfg : Cfg) (dest dmax src slen : Nat) (db sb : Bos)
+    (hb : bosTight dmax db sb) (h : dest = 0 ∨ (lo ≤ dest ∧ dest + dmax ≤ hi)) :
+    SW lo hi (strncpyG max cfg dest dmax src slen db sb) (fun _ => True) := by
+  have := RSIZE_MAX_STR_lt
+  unfold strncpyG
+  cases db <;> cases sb <;> simp only [bosTight, Option.getD] at hb ⊢ <;>
+    sw_walk using SW_chkDmaxClear, SW_chkSlenMaxClear, SW_copyLoop, SW_handleStrBosOverflow
+
+theorem SW_strncatG {lo hi : Nat} (max : Nat) (cfg : Cfg) (dest dmax src slen : Nat) (db sb : Bos)
+    (hb : bosTight dmax db sb) (h : dest = 0 ∨ (lo ≤ dest ∧ dest + dmax ≤ hi)) :
+    SW lo hi (strncatG max cfg dest dmax src slen db sb) (fun _ => True) := by
+  have := RSIZE_MAX_STR_lt
+  unfold strncatG
+  cases db <;> cases sb <;> simp only [bosTight, Option.getD] at hb ⊢ <;>
+    sw_walk using SW_chkDmaxClear, SW_chkSlenMaxClear, SW_copyLoop, SW_findEnd, SW_handleStrBosOverflow,
+      SW_strnlen_s dest dmax none
+
+theorem SW_wcscpy_s {lo hi : Nat} (cfg : Cfg) (dest dmax src : Nat) (db : Bos)
+    (h : dest = 0 ∨ (lo ≤ dest ∧ dest + dmax ≤ hi)) :
+    SW lo hi (wcscpy_s cfg dest dmax src db) (fun _ => True) := by
+  unfold wcscpy_s; sw_walk using SW_chkDmaxClearW, SW_copyLoop
+
+theorem SW_wcsncpy_s {lo hi : Nat} (cfg : Cfg) (dest dmax src slen : Nat) (db sb : Bos)
+    (h : dest = 0 ∨ (lo ≤ dest ∧ dest + dmax ≤ hi)) :
+    SW lo hi (wcsncpy_s cfg dest dmax src slen db sb) (fun _ => True) := by
+  unfold wcsncpy_s; sw_walk using SW_chkDmaxClearW, SW_copyLoop, SW_wcsnlen_s dest dmax
+
+theorem SW_wcscat_s {lo hi : Nat} (cfg : Cfg) (dest dmax src : Nat) (db : Bos)
+    (h : dest = 0 ∨ (lo ≤ dest ∧ dest + dmax ≤ hi)) :
+    SW lo hi (wcscat_s cfg dest dmax src db) (fun _ => True) := by
+  unfold wcscat_s; sw_walk using SW_chkDmaxW, SW_copyLoop, SW_findEnd
+
+theorem SW_wcsncat_s {lo hi : Nat} (cfg : Cfg) (dest dmax src slen : Nat) (db sb : Bos)
+    (h : dest = 0 ∨ (lo ≤ dest ∧ dest + dmax ≤ hi)) :
+    SW lo hi (wcsncat_s cfg dest dmax src slen db sb) (fun _ => True) := by
+  unfold wcsncat_s; sw_walk using SW_chkDmaxW, SW_copyLoop, SW_findEnd, SW_wcsnlen_s dest dmax
+
+theorem SW_stpcpy_s {lo hi : Nat} (cfg : Cfg) (dest dmax src : Nat) (db sb : Bos)
+    (h : dest = 0 ∨ (lo ≤ dest ∧ dest + dmax ≤ hi)) :
+    SW lo hi (stpcpy_s cfg dest dmax src db sb) (fun _ => True) := by
+  unfold stpcpy_s; sw_walk using SW_chkDmaxClearG, SW_stpBody
+
+theorem SW_stpncpy_s {lo hi : Nat} (cfg : Cfg) (dest dmax src slen : Nat) (db sb : Bos)
+    (hb : bosTight dmax db sb) (h : dest = 0 ∨ (lo ≤ dest ∧ dest + dmax ≤ hi)) :
+    SW lo hi (stpncpy_s cfg dest dmax src slen db sb) (fun _ => True) := by
+  have := RSIZE_MAX_STR_lt
+  unfold stpncpy_s
+  cases db <;> cases sb <;> simp only [bosTight, Option.getD] at hb ⊢ <;>
+    sw_walk using SW_chkDmaxClearG, SW_stpBody, SW_handleStrBosOverflow, SW_strnlen_s dest dmax none
 
 end SafeC
